@@ -61,6 +61,16 @@ struct Tok {
     raw: String,
     view: String,
 }
+/// an argument is out of range: the property says nothing (view `ood`), raw keeps what the implementation did
+fn ood(raw: &str) -> Tok {
+    Tok { raw: raw.to_string(), view: "ood".to_string() }
+}
+fn res_str<T: ToString>(r: Result<T, String>) -> String {
+    match r {
+        Ok(_) => "no-panic".to_string(),
+        Err(e) => e,
+    }
+}
 fn tok1(s: &str) -> Tok {
     Tok { raw: s.to_string(), view: s.to_string() }
 }
@@ -72,23 +82,21 @@ fn show_b(b: bool) -> &'static str {
     }
 }
 
-/// parse `DSU { p: [0, 1], sz: [1, 1] }`
+/// parse exactly `DSU { p: [0, 1], sz: [1, 1] }` (the derived `Debug` of the two-field struct); anything else is `None`
 fn parse_debug(s: &str) -> Option<(Vec<usize>, Vec<usize>)> {
-    let grab = |key: &str| -> Option<Vec<usize>> {
-        let i = s.find(key)? + key.len();
-        let rest = &s[i..];
-        let j = rest.find(']')?;
-        let body = &rest[..j];
+    let body = s.strip_prefix("DSU { p: [")?.strip_suffix("] }")?;
+    let (p_txt, sz_txt) = body.split_once("], sz: [")?;
+    let list = |t: &str| -> Option<Vec<usize>> {
         let mut v = Vec::new();
-        for t in body.split(',') {
-            let t = t.trim();
-            if !t.is_empty() {
-                v.push(t.parse().ok()?);
+        for x in t.split(',') {
+            let x = x.trim();
+            if !x.is_empty() {
+                v.push(x.parse().ok()?);
             }
         }
         Some(v)
     };
-    Some((grab("p: [")?, grab("sz: [")?))
+    Some((list(p_txt)?, list(sz_txt)?))
 }
 
 /// depth of every vertex in O(n) (memoised along paths); `None` if the parent pointers contain a cycle / escape
@@ -139,7 +147,9 @@ fn dump_tok(d: &DSU) -> (Tok, bool) {
     let text = format!("{:?}", d.clone());
     let (p, sz) = match parse_debug(&text) {
         Some(x) => x,
-        None => return (Tok { raw: "debug-unparsable".into(), view: "debug-unparsable".into() }, true),
+        // the Debug text is no longer the one this harness understands: that breaks the correspondence (raw differs from
+        // the model's dump), it is NOT evidence against the property, so the view stays neutral
+        None => return (Tok { raw: "debug-unparsable".into(), view: "depth-ok".into() }, false),
     };
     let n = p.len();
     let (view, dmax) = match depths(&p) {
@@ -244,18 +254,22 @@ fn do_op(st: &mut State, t: &[&str]) -> Out {
     match (t[0], t.len()) {
         ("un", 3) => {
             let (u, v) = (need!(num(1)), need!(num(2)));
+            if u >= n || v >= n {
+                return Out::Stop(ood(&res_str(catch(|| st.cur.un(u, v)))));
+            }
             match catch(|| st.cur.un(u, v)) {
                 Err(e) => Out::Stop(tok1(&e)),
                 Ok(b) => {
-                    if u < n && v < n {
-                        st.oc.union(u, v);
-                    }
+                    st.oc.union(u, v);
                     Out::Tok(tok1(show_b(b)))
                 }
             }
         }
         ("check", 3) => {
             let (u, v) = (need!(num(1)), need!(num(2)));
+            if u >= n || v >= n {
+                return Out::Stop(ood(&res_str(catch(|| st.cur.check(u, v)))));
+            }
             match catch(|| st.cur.check(u, v)) {
                 Err(e) => Out::Stop(tok1(&e)),
                 Ok(b) => Out::Tok(tok1(show_b(b))),
@@ -263,6 +277,9 @@ fn do_op(st: &mut State, t: &[&str]) -> Out {
         }
         ("size", 2) => {
             let v = need!(num(1));
+            if v >= n {
+                return Out::Stop(ood(&res_str(catch(|| st.cur.size(v)))));
+            }
             match catch(|| st.cur.size(v)) {
                 Err(e) => Out::Stop(tok1(&e)),
                 Ok(k) => Out::Tok(tok1(&k.to_string())),
@@ -270,10 +287,13 @@ fn do_op(st: &mut State, t: &[&str]) -> Out {
         }
         ("par", 2) => {
             let v = need!(num(1));
+            if v >= n {
+                return Out::Stop(ood(&res_str(catch(|| st.cur.par(v)))));
+            }
             match catch(|| st.cur.par(v)) {
                 Err(e) => Out::Stop(tok1(&e)),
                 Ok(r) => {
-                    let ok = v < n && st.oc.rep(v, r);
+                    let ok = st.oc.rep(v, r);
                     Out::Tok(Tok { raw: r.to_string(), view: if ok { "r".into() } else { "R!".into() } })
                 }
             }
@@ -334,6 +354,54 @@ fn do_op(st: &mut State, t: &[&str]) -> Out {
             }
             Out::Tok(tok1(&format!("#{:016x}", h)))
         }
+        ("randmix", 3) => {
+            let seed: u64 = need!(t[1].parse().ok());
+            let cnt = need!(num(2));
+            let (mut h_all, mut h_obs, mut ok) = (FNV_INIT, FNV_INIT, true);
+            if n > 0 {
+                let mut g = SplitMix64::new(seed);
+                for _ in 0..cnt {
+                    let k = g.next_u64() % 8;
+                    let a = (g.next_u64() % n as u64) as usize;
+                    let b = (g.next_u64() % n as u64) as usize;
+                    if k < 4 {
+                        match catch(|| st.cur.un(a, b)) {
+                            Err(e) => return Out::Stop(tok1(&e)),
+                            Ok(x) => {
+                                st.oc.union(a, b);
+                                h_all = fnv(h_all, x as u64);
+                                h_obs = fnv(h_obs, x as u64);
+                            }
+                        }
+                    } else if k == 4 {
+                        match catch(|| st.cur.par(a)) {
+                            Err(e) => return Out::Stop(tok1(&e)),
+                            Ok(x) => {
+                                ok &= st.oc.rep(a, x);
+                                h_all = fnv(h_all, x as u64);
+                            }
+                        }
+                    } else if k == 5 {
+                        match catch(|| st.cur.size(a)) {
+                            Err(e) => return Out::Stop(tok1(&e)),
+                            Ok(x) => {
+                                h_all = fnv(h_all, x as u64);
+                                h_obs = fnv(h_obs, x as u64);
+                            }
+                        }
+                    } else {
+                        match catch(|| st.cur.check(a, b)) {
+                            Err(e) => return Out::Stop(tok1(&e)),
+                            Ok(x) => {
+                                h_all = fnv(h_all, x as u64);
+                                h_obs = fnv(h_obs, x as u64);
+                            }
+                        }
+                    }
+                }
+            }
+            Out::Tok(Tok { raw: format!("#{:016x}", h_all), view: format!("#{:016x}/{}", h_obs, if ok { "r" } else { "R!" }) })
+        }
         ("checkadj", 1) => {
             let mut h = FNV_INIT;
             for v in 0..n.saturating_sub(1) {
@@ -350,10 +418,13 @@ fn do_op(st: &mut State, t: &[&str]) -> Out {
                 let mut cnt = 0u64;
                 let mut h = FNV_INIT;
                 for (u, v) in pairs {
+                    if u >= n || v >= n {
+                        return Out::Stop(ood(&res_str(catch(|| st.cur.un(u, v)))));
+                    }
                     match catch(|| st.cur.un(u, v)) {
                         Err(e) => return Out::Stop(tok1(&e)),
                         Ok(b) => {
-                            if u < n && v < n {
+                            {
                                 st.oc.union(u, v);
                             }
                             cnt += b as u64;
@@ -409,7 +480,8 @@ fn run_case(line: &str) -> String {
 // generators
 
 fn suffix(n: usize) -> String {
-    let mut s = String::new();
+    // the forest is measured first: every lookup below compresses paths
+    let mut s = String::from(" ; dump");
     for i in 0..n {
         for j in (i + 1)..n {
             s.push_str(&format!(" ; check {} {}", i, j));
@@ -426,19 +498,56 @@ fn suffix(n: usize) -> String {
     s
 }
 
+/// element counts (current, saved) after the ops, or None if some op has an argument out of range
+fn track(n0: usize, ops: &[&str]) -> Option<(usize, usize)> {
+    let (mut n, mut m) = (n0, n0);
+    for op in ops {
+        let t: Vec<&str> = op.split_whitespace().collect();
+        let a = |i: usize| -> usize { t[i].parse().unwrap() };
+        match t[0] {
+            "un" | "check" => {
+                if a(1) >= n || a(2) >= n {
+                    return None;
+                }
+            }
+            "par" | "size" => {
+                if a(1) >= n {
+                    return None;
+                }
+            }
+            "reset" => n = a(1),
+            "clone" => m = n,
+            "swap" => std::mem::swap(&mut n, &mut m),
+            _ => {}
+        }
+    }
+    Some((n, m))
+}
+
 /// every sequence over `alphabet` of length exactly `depth`
 fn exhaustive(n: usize, alphabet: &[String], depth: usize, tag: &str, emit: &mut dyn FnMut(String), st: &mut Stats) {
     let k = alphabet.len();
     let total = k.pow(depth as u32);
-    let suf = suffix(n);
     for mut code in 0..total {
-        let mut line = n.to_string();
+        let mut ops: Vec<&str> = Vec::with_capacity(depth);
         for _ in 0..depth {
-            line.push_str(" ; ");
-            line.push_str(&alphabet[code % k]);
+            ops.push(&alphabet[code % k]);
             code /= k;
         }
-        line.push_str(&suf);
+        // the in-domain stream: histories that index a structure beyond its current size are left to the ood stream
+        let n_end = match track(n, &ops) {
+            Some((n_end, _)) => n_end,
+            None => {
+                st.bump("exhaustive_skipped_out_of_range");
+                continue;
+            }
+        };
+        let mut line = n.to_string();
+        for op in &ops {
+            line.push_str(" ; ");
+            line.push_str(op);
+        }
+        line.push_str(&suffix(n_end));
         emit(line);
         st.bump(tag);
     }
@@ -463,6 +572,9 @@ fn mixed_alphabet(n: usize) -> Vec<String> {
     }
     a.push("size 0".into());
     a.push(format!("check 0 {}", n - 1));
+    if n - 1 != 1 {
+        a.push("check 0 1".into());
+    }
     a.push(format!("reset {}", n - 1));
     a.push(format!("reset {}", n + 1));
     a.push("clone".into());
@@ -544,6 +656,8 @@ fn adversarial(n: usize, seed: u64) -> Vec<String> {
         format!("{n} ; star 0 0 {n} ; dump ; reset {h} ; binom 0 {h} ; dump ; reset {n} ; starr 0 0 {n} ; dump ; parall"),
         // random unions, clone in the middle, both copies continue independently
         format!("{n} ; rand {seed} {h} ; dump ; clone ; rand {} {n} ; dump ; swap ; dump ; chain 0 {n} ; dump ; swap ; sizeall ; dump", seed + 1),
+        // lookups interleaved with unions (compress, then link) at this size
+        format!("{n} ; randmix {seed} {} ; dump ; parall ; sizeall ; dump ; randmix {} {n} ; dump", 3 * n, seed + 2),
         // binomial trees of size 4 / 8 attached below singletons and chains of binomial trees (what a broken size comparison gets wrong)
         format!("{n} ; binom 0 {h} ; chain {} {n} ; dump ; un {} 0 ; dump ; parall ; dump", h, n.saturating_sub(1)),
     ]
